@@ -36,6 +36,9 @@ impl Game {
     }
 
     pub fn from_board(board: Board, search_depth: u8) -> Self {
+        // The position the game starts from is the first occurrence of itself.
+        let mut board = board;
+        board.count_current_position();
         Self {
             board,
             move_history: Vec::new(),
@@ -77,6 +80,14 @@ impl Game {
         self.move_history.push(chess_move);
     }
 
+    /// Registers the position that arose from the move just made, so that a third
+    /// occurrence is reported as a draw. Callers pass the turn on after the move has
+    /// been made, so the opponent of the board's current turn is to move in it.
+    fn register_position_after_move(&mut self) {
+        let side_to_move = self.board.turn().opposite();
+        self.board.count_position_with_side_to_move(side_to_move);
+    }
+
     pub fn most_recent_move(&self) -> Option<ChessMove> {
         self.move_history.iter().last().cloned()
     }
@@ -100,6 +111,7 @@ impl Game {
         match chess_move.apply(&mut self.board) {
             Ok(_capture) => {
                 self.save_move(chess_move.clone());
+                self.register_position_after_move();
                 Ok(())
             }
             Err(error) => Err(GameError::BoardError { error }),
@@ -140,6 +152,7 @@ impl Game {
             .apply(&mut self.board)
             .map_err(|error| GameError::BoardError { error })?;
         self.save_move(best_move.clone());
+        self.register_position_after_move();
         Ok(best_move)
     }
 
@@ -180,6 +193,7 @@ impl Game {
         match chess_move.apply(&mut self.board) {
             Ok(_capture) => {
                 self.save_move(chess_move.clone());
+                self.register_position_after_move();
                 Ok(chess_move.clone())
             }
             Err(error) => Err(GameError::BoardError { error }),
